@@ -474,6 +474,24 @@ impl<'a> TransactionRebase<'a> {
         other_transaction: &Transaction,
         other_version: u64,
     ) -> Result<()> {
+        // A concurrent update that rewrote the values of an indexed field in place (a
+        // "horizontal" update) is compatible, but the new index was built from the old
+        // values of those fragments, so it must not claim to cover them.  This is the same
+        // pruning the update applies to already existing indices when it commits second.
+        if let Operation::Update {
+            updated_fragments,
+            fields_modified,
+            ..
+        } = &other_transaction.operation
+        {
+            if let Operation::CreateIndex { new_indices, .. } = &mut self.transaction.operation {
+                Transaction::prune_updated_fields_from_indices(
+                    new_indices,
+                    updated_fragments,
+                    fields_modified,
+                );
+            }
+        }
         if let Operation::CreateIndex {
             new_indices,
             removed_indices,
